@@ -26,6 +26,8 @@ func init() {
 	register("C06", propInfo{
 		Explanation: "Static decision of the structural clauses of C06 (close handshake): the sendable-code set and reason bound as tables over all integers; the echo uses the parsed code and reason; CloseError survives every wrapping (all fmt.Errorf with an error operand use %w); closeHandshake returns nil iff the peer echoed the code; every transport operation polls Conn.closed first; Close/CloseNow after the first call never return nil.",
 		Decides: []string{
+			"C06.frame.len (= C02.bits.len): the header codec's length table (≤125 inline, 126 + 2 bytes, 127 + 8 bytes) — a close payload of 125 bytes goes out in the inline form",
+			"C06.recheck: the channel lock itself (C06.recheck = C05.recheck = C07.mu = C09.mu): mu.lock returns nil only holding the lock and after re-polling closed, returns an error only without it, and never releases a lock this call did not acquire; forceLock is one blocking send, unlock at most one receive, tryLock true exactly when its non-blocking send was taken, and nothing else",
 			"C06.codes/nosend (= C02.close): sendable codes, reason ≤ 123, no frame on validation failure, 1005 ↦ empty payload",
 			"C06.echo: handleControl echoes writeClose(ce.Code, ce.Reason) of the parsed payload and returns an error wrapping that CloseError with %w",
 			"C06.chain: every fmt.Errorf in the library that receives an error operand binds it to %w; errd.Wrap uses %w; readLoop passes CloseErrors through",
@@ -367,7 +369,40 @@ func c04adapters(p *Program, r *Report, rule string) {
 				}
 				return true, ""
 			}
+			isNil, nilKnown := decidedLike(pa, "call:invoke io.Reader.Read@@#1 == nil")
+			if keyIs(errv, "call:invoke io.Reader.Read@@#1") && rule == "C18.msgend" && !(nilKnown && isNil) {
+				// handed on unchanged only after its close status was looked at and found to be neither 1000 nor 1001 (F33)
+				cs := pa.Calls("CloseStatus")
+				if len(cs) != 1 || !keyIs(cs[0].Args[0], "call:invoke io.Reader.Read@@#1") {
+					return false, "the message reader's error is returned without asking CloseStatus: a normal or going-away close received between fragments would not read as io.EOF"
+				}
+				k := cs[0].Res.Key()
+				n1, k1 := decidedLike(pa, k+" == 1000")
+				n2, k2 := decidedLike(pa, k+" == 1001")
+				if !(k1 && !n1 && k2 && !n2) {
+					return false, "the message reader's error is returned unchanged although its close status may be 1000 or 1001"
+				}
+			}
 			if !keyIs(errv, "call:invoke io.Reader.Read@@#1") {
+				// the one translation: a normal / going-away close reported by the message reader (a close frame between
+				// fragments) reads as io.EOF and is remembered, exactly as on the Reader path
+				if errv.Key() == "G:io.EOF" {
+					cs := pa.Calls("CloseStatus")
+					if len(cs) == 1 && keyIs(cs[0].Args[0], "call:invoke io.Reader.Read@@#1") && (pa.IntWithin(cs[0].Res.Key(), 0, 5000, 1000, 1001)) {
+						sticky := false
+						for _, s := range pa.Events {
+							if s.Kind == "store" && s.AddrK == "netConn.readEOFed" {
+								if b, ok := avBool(s.Val); ok && b {
+									sticky = true
+								}
+							}
+						}
+						if sticky {
+							return true, ""
+						}
+						return false, "io.EOF for a close status without remembering it (readEOFed)"
+					}
+				}
 				return false, "other error not returned unchanged: " + errv.Key()
 			}
 			return true, ""
@@ -404,6 +439,7 @@ func runC06(p *Program, r *Report) {
 	c03closepayload(p, r, "C06.parse")
 	c06closereadYield(p, r, "C06.closeread")
 	c03fail(p, r, "C06.fail")
+	c06held(p, r, "C06.held")
 	// "a Close frame with exactly that code and reason": the header codec's length table at 125 (seed C06-M)
 	shareAs(r, "C06.frame.len", "C06.frame.len", func(sub *Report) { c02bits(p, sub, "C06.frame") })
 	cAfterClose(p, r, "C06.after-close")
@@ -958,10 +994,10 @@ func cReasons(p *Program, r *Report, rule string) {
 		switch cs.Name {
 		case "Conn.writeError":
 			fns[cs.Fn] = true
-		case "Conn.writeClose":
-			// the inlined spelling of writeError: writeClose(code, err.Error())
-			if args := cs.Instr.Common().Args; len(args) == 3 {
-				if c, ok := args[2].(*ssa.Call); ok && c.Call.IsInvoke() && c.Call.Method.Name() == "Error" && fname != "Conn.writeError" {
+		case "Conn.writeClose", "Conn.writeCloseCtx":
+			// the inlined spelling of writeError: writeClose(code, err.Error()) / writeCloseCtx(ctx, code, err.Error())
+			if args := cs.Instr.Common().Args; len(args) >= 3 {
+				if c, ok := args[len(args)-1].(*ssa.Call); ok && c.Call.IsInvoke() && c.Call.Method.Name() == "Error" && fname != "Conn.writeError" {
 					fns[cs.Fn] = true
 				}
 			}
@@ -1273,6 +1309,78 @@ func cMuPrimitive(p *Program, r *Report, rule string) {
 			p.forAllPaths(r, rule, fn, "channel-lock primitive", Opts{}, sp.what, sp.chk)
 		}
 	}
+}
+
+// c06held: the error that ended a message early (a close frame between fragments, a protocol error) is reported to
+// the reader even when the decompressor handed out buffered bytes first and the connection is closed by the time
+// it is asked again: msgReader.read remembers the frame reader's error, reset forgets it, and Read reports it when
+// the read lock is refused (F36).
+func c06held(p *Program, r *Report, rule string) {
+	fld := p.FieldOpt("msgReader.err")
+	if fld == nil {
+		r.Check(rule, "msgReader", "field err", "-", false, "msgReader keeps the error that ended the current message", "no field msgReader.err")
+		return
+	}
+	if fn := p.Func("msgReader.read"); fn != nil {
+		p.forAllPaths(r, rule, fn, "frame reader's error remembered", Opts{}, "when readLoop fails inside a message, msgReader.read stores that very error in msgReader.err before returning it", func(pa *Path) (bool, string) {
+			rl := pa.Calls("Conn.readLoop")
+			if len(rl) == 0 || pa.End != "return" {
+				return true, ""
+			}
+			if ok, known := decidedLike(pa, rl[len(rl)-1].Res.Key()+"#1 == nil"); known && !ok {
+				for _, s := range pa.Events {
+					if s.Kind == "store" && s.AddrK == "msgReader.err" && keyIs(s.Val, "call:Conn.readLoop@@#1") {
+						return true, ""
+					}
+				}
+				return false, "readLoop's error is returned without being remembered"
+			}
+			return true, ""
+		})
+	}
+	if fn := p.Func("msgReader.Read"); fn != nil {
+		p.forAllPaths(r, rule, fn, "remembered error reported when the lock is refused", Opts{}, "when readMu.lock fails, msgReader.Read wraps msgReader.err if there is one, else the lock's error", func(pa *Path) (bool, string) {
+			lk := pa.Calls("mu.lock")
+			if len(lk) == 0 || pa.End != "return" {
+				return true, ""
+			}
+			if ok, known := decidedLike(pa, lk[0].Res.Key()+" == nil"); known && !ok {
+				held, k := decidedLike(pa, "msgReader.err == nil")
+				if !k {
+					return false, "the lock's error is returned without looking at the remembered error"
+				}
+				wrapped := expandCalls(pa, pa.Ret[1].Key())
+				if !held && !strings.Contains(wrapped, "msgReader.err") {
+					return false, "a remembered error exists but " + wrapped + " is returned"
+				}
+				if held && !strings.Contains(wrapped, "mu.lock") {
+					return false, "no remembered error, yet " + wrapped + " is returned"
+				}
+			}
+			return true, ""
+		})
+	}
+	// forgotten with the message: reset clears it; nobody else writes it
+	for _, fa := range p.FieldAccesses(fld) {
+		if !fa.Write && !fa.Addr {
+			continue
+		}
+		fname := p.FuncName(fa.Fn)
+		ok := fname == "msgReader.read" || fname == "msgReader.reset"
+		if fname == "msgReader.reset" && fa.Store != nil {
+			if c, isC := fa.Store.Val.(*ssa.Const); !isC || !c.IsNil() {
+				ok = false
+			}
+		}
+		r.Check(rule, fname, "store msgReader.err", p.InstrPos(fa.Instr), ok, "msgReader.err is written by msgReader.read (the frame reader's error) and cleared by msgReader.reset (a new message), nowhere else", fname)
+	}
+	n := 0
+	for _, fa := range p.FieldAccesses(fld) {
+		if fa.Write && p.FuncName(fa.Fn) == "msgReader.reset" {
+			n++
+		}
+	}
+	r.Check(rule, "msgReader.reset", "clears msgReader.err", "-", n == 1, "a new message forgets the error of the previous one", fmt.Sprintf("%d store(s) in reset", n))
 }
 
 func c06once(p *Program, r *Report, rule string) {
